@@ -24,7 +24,7 @@ from mir import body_of
 from report import site_of
 
 IO_TRAITS = ("std::io::Read", "std::io::Write", "std::io::Seek", "std::io::BufRead",
-             "byteorder::ReadBytesExt", "byteorder::WriteBytesExt")
+             "byteorder::io::ReadBytesExt", "byteorder::io::WriteBytesExt")
 
 # partial-transfer / unbounded primitives: a short transfer is NOT transparent through these
 FORBIDDEN = {
@@ -64,11 +64,11 @@ def io_fallible(fx, cg):
 
 
 def is_io_result(ty):
-    return ty.startswith("std::result::Result<") and "std::io::Error" in ty
+    return ty.startswith("core::result::Result<") and "std::io::error::Error" in ty
 
 
 def is_result(ty):
-    return ty.startswith("std::result::Result<")
+    return ty.startswith("core::result::Result<")
 
 
 def tail_nodes(root):
@@ -130,7 +130,7 @@ def run(fx, chk, tier):
             chk.bad("R1b", fid, "closure performs fallible I/O: its Result escapes the call-site rule", site_of(fn))
             continue
         out = fn.get("output_s") or ""
-        chk.require(is_result(out) and ("error::Error" in out or "std::io::Error" in out), "R1b", fid,
+        chk.require(is_result(out) and ("error::Error" in out), "R1b", fid,
                     "returns " + out, "io-fallible function returns %s: an I/O failure cannot surface as an error" % out, site_of(fn))
 
     # ---- R1 (HIR)
@@ -228,7 +228,7 @@ def run(fx, chk, tier):
 
     # ---- R3
     froms = [f for f in fx.fns.values()
-             if f["name"] == "from" and (f.get("impl") or {}).get("trait") == "std::convert::From<std::io::Error>"
+             if f["name"] == "from" and (f.get("impl") or {}).get("trait") == "core::convert::From<std::io::error::Error>"
              and (f.get("impl") or {}).get("self_ty") == "error::Error"]
     if chk.anchor("R3", "impl From<std::io::Error> for error::Error", froms):
         body = body_of(froms[0])
